@@ -7,6 +7,7 @@
 #include <nano/core/parallel.h>
 #include <stdexcept>
 #include <thread>
+#include <unistd.h>
 
 using namespace verif;
 using nano::parallel::future_t;
@@ -216,12 +217,38 @@ std::string run_shutdown(const size_t size, const int tasks)
     }
     return "";
 }
+
+std::atomic<uint64_t> g_progress{0};
+std::atomic<int64_t>  g_current{-1};
+std::atomic<int>      g_current_kind{0};
+
+/// a free-running case that makes no progress for 30 s is a hang (deadlock at shutdown, lost wake-up)
+void watchdog()
+{
+    uint64_t last  = g_progress.load();
+    int      stuck = 0;
+    for (;;)
+    {
+        std::this_thread::sleep_for(std::chrono::seconds(1));
+        const auto now = g_progress.load();
+        stuck          = (now == last) ? stuck + 1 : 0;
+        last           = now;
+        if (stuck >= 30)
+        {
+            std::fprintf(stderr, "HANG: no progress for 30 s\nCASE %s:%lld\n", g_current_kind.load() == 0 ? "free" : "shutdown",
+                         static_cast<long long>(g_current.load()));
+            std::fflush(stderr);
+            _exit(3);
+        }
+    }
+}
 } // namespace
 
 int main(int argc, char** argv)
 {
     const auto args = parse_args(argc, argv);
     report_t   r("c17/free", args);
+    std::thread(watchdog).detach();
     const bool tsan = args.get("small", "0") == "1";
 
     const std::vector<int> sizes    = tsan ? std::vector<int>{1, 2, 3, 16} : std::vector<int>{1, 2, 3, 4, 16};
@@ -266,7 +293,10 @@ int main(int argc, char** argv)
                       {
                           return;
                       }
-                      const auto v = run_case(size, elements, chunk, subs, thrower, raise);
+                      g_current      = static_cast<int64_t>(index);
+                      g_current_kind = 0;
+                      const auto v   = run_case(size, elements, chunk, subs, thrower, raise);
+                      g_progress.fetch_add(1);
                       r.evaluations += 1;
                       const bool parallel = size > 1 && ((chunk == 0 && elements > 1) || (chunk > 0 && chunk < elements));
                       if (parallel)
@@ -294,7 +324,10 @@ int main(int argc, char** argv)
     for_each_case(lats, r, "shutdown",
                   [&](const uint64_t index, const std::vector<uint64_t>& d)
                   {
-                      const auto v = run_shutdown(static_cast<size_t>(sizes[d[0]]), static_cast<int>(d[1]));
+                      g_current      = static_cast<int64_t>(index);
+                      g_current_kind = 1;
+                      const auto v   = run_shutdown(static_cast<size_t>(sizes[d[0]]), static_cast<int>(d[1]));
+                      g_progress.fetch_add(1);
                       r.evaluations += 1;
                       if (d[1] > 0)
                       {
